@@ -34,6 +34,12 @@ CHECKS = {
  "C16": ("exploration", "reference-model monitor over container operation histories (script route and object-API route), all live containers compared after every step",
          "Random and directed operation histories (<=40 steps, aliases/copies/slices) on list/map/set/string/byte_slice are run through scripts and the object API and compared step by step with plain Go models. Held on the histories explored.",
          "Where the statement leaves behaviour open (slice starting at len, absent members) either outcome is accepted; pinned choices are listed in the evidence assumptions.", "DESIGN.md §5 C16"),
+ "C05": ("exploration", "consistency monitor over repetitions: K compilations+evaluations per process and the same programs again in fresh processes; digests of bytecode, result, error, output and side-effect order compared",
+         "Engine programs and order-sensitive templates (map/set literals with side effects and duplicate keys, iteration, printing, encoding, defaults, error messages) give identical observations across 4 in-process repetitions and 3 processes (Go re-rolls map iteration order per range and the hash seed per process). Held on the programs explored.",
+         "No model: only self-consistency is demanded. rand/time/goroutines/host pointers are never used by the programs.", "DESIGN.md §5 C05"),
+ "C17": ("translation_validation", "translation-validation differential: marshal/unmarshal/re-marshal byte equality and side-by-side execution of original and reloaded code for every generated program",
+         "For every generated program the marshalled bytes are deterministic (also across independent compilations), unmarshalling succeeds, re-marshalling reproduces the bytes, and original and reloaded code behave identically (result, error text, output, globals) on fresh VMs; the reloaded run is also compared with the reference interpreter.",
+         "Programs come from C01's generator; equality is exact text equality of renderings.", "DESIGN.md §5 C17"),
 }
 
 NOT_YET = {}
